@@ -274,9 +274,9 @@ func c11(p *model.Prog, r *report.Result) {
 	pack := p.Func("pkg/httpflv", "PackHttpflvTag")
 	parse := p.Func("pkg/httpflv", "parseTagHeader")
 	mod := p.Method("pkg/httpflv", "Tag", "ModTagTimestamp")
-	wl := writerLayout(pack)
+	wl := writerLayoutDeep(pack)
 	rl := readerLayout(parse)
-	ml := writerLayout(mod)
+	ml := writerLayoutDeep(mod)
 	pairs := []struct{ w, r string }{{"t", "Type"}, {"len(in)", "DataSize"}, {"timestamp", "Timestamp"}}
 	abs := func(it layoutItem) bool { return it.Base == nil }
 	for _, pr := range pairs {
@@ -295,9 +295,22 @@ func c11(p *model.Prog, r *report.Result) {
 			}
 		}
 		var low, high uint64
-		for _, it := range writerLayout(wfn) {
+		for _, it := range writerLayoutDeep(wfn) {
 			if it.Base != nil || tsParam == nil {
 				continue
+			}
+			src := tsParam
+			if it.Bind != nil {
+				// the helper's parameter that receives the timestamp
+				src = nil
+				for q, a := range it.Bind {
+					if ua := model.Unwrap(a); ua == tsParam || (paramCell(ua) != nil && paramCell(ua) == paramCell(tsParam)) {
+						src = q
+					}
+				}
+				if src == nil {
+					continue
+				}
 			}
 			var val ssa.Value
 			switch x := it.In.(type) {
@@ -309,7 +322,7 @@ func c11(p *model.Prog, r *report.Result) {
 			if val == nil {
 				continue
 			}
-			m, ok := valueBits(val, tsParam)
+			m, ok := valueBits(val, src)
 			if !ok {
 				continue
 			}
